@@ -7,7 +7,7 @@
 //          view   read_view into a vw x vh view         -> ok <vw> <vh> <hashA> <hashB>
 //          conv   read_and_convert_image (dst type)     -> ok <w> <h> <hashA> <hashB>
 //          scan   scanline_reader, all rows via iterator-> ok <w> <h> <scanline_length> <hash>
-//   dev    name | file (FILE*) | stream (std::ifstream)
+//   dev    name | file (FILE*) | stream (std::ifstream) | sstream (std::istringstream)
 //   dst    rgb8 | rgba8 | gray8 | gray1 | -
 //   x0 y0 dw dh  image_read_settings top_left / dim (all 0 = default)
 // hashA / hashB: FNV-1a of the destination pixels of two reads; for `view` the caller's view is pre-filled with 0xBE / 0x41
@@ -102,6 +102,7 @@ template <typename Info> static std::string info_fields(Info const& i) { return 
 #endif
 
 // ---- one read through the chosen device; F is called with the device lvalue
+static std::string slurp_file(std::string const& p) { std::ifstream f(p.c_str(), std::ios::binary); std::stringstream ss; ss << f.rdbuf(); return ss.str(); }
 template <typename Tag> struct has_file_device : std::true_type {};
 #ifdef C11_EXT
 template <> struct has_file_device<gil::tiff_tag> : std::false_type {};     // libtiff: file name and std::istream only
@@ -112,6 +113,7 @@ template <typename Tag, typename F> static void with_device(Op const& o, F f) {
         if constexpr (has_file_device<Tag>::value) { FILE* fp = std::fopen(o.path.c_str(), "rb"); if (!fp) throw std::runtime_error("fopen"); f(fp); }   // GIL owns and closes fp
         else throw std::runtime_error("no FILE* device for this format");
     }
+    else if (o.dev == "sstream") { std::istringstream in(slurp_file(o.path)); f(in); }      // seeking beyond the end fails here
     else { std::ifstream in(o.path.c_str(), std::ios::binary); f(in); }
 }
 
@@ -157,8 +159,10 @@ template <typename Tag> static std::string do_scan(Op const& o) {
         using dev_t = gil::detail::file_stream_device<Tag>; dev_t dev(fp);
         gil::scanline_reader<dev_t, Tag> reader(dev, gil::image_read_settings<Tag>()); return scan_rows(reader);
     }
+    using dev_t = gil::detail::istream_device<Tag>;
+    if (o.dev == "sstream") { std::istringstream in(slurp_file(o.path)); dev_t dev(in); gil::scanline_reader<dev_t, Tag> reader(dev, gil::image_read_settings<Tag>()); return scan_rows(reader); }
     std::ifstream in(o.path.c_str(), std::ios::binary);
-    using dev_t = gil::detail::istream_device<Tag>; dev_t dev(in);
+    dev_t dev(in);
     gil::scanline_reader<dev_t, Tag> reader(dev, gil::image_read_settings<Tag>()); return scan_rows(reader);
 }
 
